@@ -718,7 +718,10 @@ Proof.
 Qed.
 
 Lemma families_upd : Forall family_upd families.
-Proof. unfold families. repeat constructor; [apply upd_strings|apply upd_lists]. Qed.
+Proof.
+  unfold families. apply Forall_cons; [apply upd_strings|].
+  apply Forall_cons; [apply upd_lists|apply Forall_nil].
+Qed.
 
 Lemma upd_dispatch fs : Forall family_upd fs ->
   forall d now nowms n args hint T, (nowms + 100) / 1000 <= T ->
@@ -873,4 +876,219 @@ Proof.
   destruct (bytes_eqb_spec k0 k) as [->|N]; [|reflexivity].
   rewrite E. replace (t <=? now) with true by (symmetry; apply Z.leb_le; exact L).
   destruct (db_get d k); reflexivity.
+Qed.
+
+(* ================================================================== Part 3: deadlines *)
+(* ---- 3a: commands that never touch a deadline ---- *)
+(* every key still present has the deadline it had (none if it did not exist: see [keep_view]) *)
+Definition ttl_keep (d d' : db) : Prop :=
+  forall k, db_get d' k = None \/ db_ttl d' k = db_ttl d k.
+
+Lemma keep_refl d : ttl_keep d d.
+Proof. intros k; right; reflexivity. Qed.
+Lemma keep_set_after d d1 k v : ttl_keep d d1 -> db_get d1 k <> None -> ttl_keep d (db_set d1 k v).
+Proof.
+  intros H G k0. rewrite db_get_set, db_ttl_set. destruct (bytes_eqb_spec k0 k) as [->|N].
+  - right. destruct (H k) as [E|E]; [contradiction|exact E].
+  - apply H.
+Qed.
+Lemma keep_set_same d k v : ttl_keep d (db_set d k v).
+Proof. intros k0. right. apply db_ttl_set. Qed.
+Lemma keep_del_after d d1 k : ttl_keep d d1 -> ttl_keep d (db_del d1 k).
+Proof.
+  intros H k0. rewrite db_get_del, db_ttl_del. destruct (bytes_eqb_spec k0 k) as [->|N].
+  - left; reflexivity.
+  - apply H.
+Qed.
+Lemma keep_del d k : ttl_keep d (db_del d k).
+Proof. apply keep_del_after, keep_refl. Qed.
+Lemma keep_put_list d k l : ttl_keep d (put_list d k l).
+Proof. destruct l; cbn; [apply keep_del|apply keep_set_same]. Qed.
+Lemma keep_put_list_after d d1 k l : ttl_keep d d1 -> db_get d1 k <> None -> ttl_keep d (put_list d1 k l).
+Proof. intros H G. destruct l; cbn; [apply keep_del_after|apply keep_set_after]; assumption. Qed.
+Lemma keep_purge d t : db_wf d -> ttl_keep d (purge d t).
+Proof.
+  intros W k. rewrite db_get_purge, db_ttl_purge by exact W.
+  destruct (expired d t k); [left|right]; reflexivity.
+Qed.
+Lemma keep_lmove d src dst l v : src <> dst -> ttl_keep d (db_set (put_list d src l) dst v).
+Proof.
+  intros N k. rewrite db_get_set, db_ttl_set, put_list_cases.
+  destruct (bytes_eqb_spec k dst) as [->|Nk].
+  - right. destruct l; [rewrite db_ttl_del|rewrite db_ttl_set]; try reflexivity.
+    destruct (bytes_eqb_spec dst src); [congruence|reflexivity].
+  - destruct l; [rewrite db_get_del, db_ttl_del|rewrite db_get_set, db_ttl_set].
+    + destruct (bytes_eqb k src); [left|right]; reflexivity.
+    + right; reflexivity.
+Qed.
+
+Ltac keep_leaf :=
+  cbn [snd];
+  first [ apply keep_refl | apply keep_set_same | apply keep_del | apply keep_put_list ].
+Ltac keep_auto := repeat break_match; keep_leaf.
+
+Lemma keep_get d args : ttl_keep d (snd (exec_get d args)).
+Proof. unfold exec_get. keep_auto. Qed.
+Lemma keep_getrange d args : ttl_keep d (snd (exec_getrange d args)).
+Proof. unfold exec_getrange. keep_auto. Qed.
+Lemma keep_setrange d args : ttl_keep d (snd (exec_setrange d args)).
+Proof. unfold exec_setrange. keep_auto. Qed.
+Lemma keep_mget d args : ttl_keep d (snd (exec_mget d args)).
+Proof. unfold exec_mget. keep_auto. Qed.
+Lemma keep_setnx d args : ttl_keep d (snd (exec_setnx d args)).
+Proof. unfold exec_setnx. keep_auto. Qed.
+Lemma keep_strlen d args : ttl_keep d (snd (exec_strlen d args)).
+Proof. unfold exec_strlen. keep_auto. Qed.
+Lemma keep_incr_by d k n : ttl_keep d (snd (incr_by d k n)).
+Proof. unfold incr_by. keep_auto. Qed.
+Lemma keep_incr d args : ttl_keep d (snd (exec_incr d args)).
+Proof. unfold exec_incr. repeat break_match; try apply keep_incr_by; keep_leaf. Qed.
+Lemma keep_decr d args : ttl_keep d (snd (exec_decr d args)).
+Proof. unfold exec_decr. repeat break_match; try apply keep_incr_by; keep_leaf. Qed.
+Lemma keep_incrby d args : ttl_keep d (snd (exec_incrby d args)).
+Proof. unfold exec_incrby. repeat break_match; try apply keep_incr_by; keep_leaf. Qed.
+Lemma keep_decrby d args : ttl_keep d (snd (exec_decrby d args)).
+Proof. unfold exec_decrby. repeat break_match; try apply keep_incr_by; keep_leaf. Qed.
+Lemma keep_append d args : ttl_keep d (snd (exec_append d args)).
+Proof. unfold exec_append. keep_auto. Qed.
+Lemma keep_del_keys d l : forall d1 n, ttl_keep d d1 -> ttl_keep d (snd (del_keys d1 l n)).
+Proof.
+  induction l as [|k r IH]; intros d1 n H; cbn; [exact H|].
+  destruct (db_get d1 k); apply IH; apply keep_del_after; exact H.
+Qed.
+Lemma keep_exec_del d args : ttl_keep d (snd (exec_del d args)).
+Proof.
+  unfold exec_del. destruct args as [|c [|k r]]; try apply keep_refl.
+  pose proof (keep_del_keys d (k :: r) d 0 (keep_refl d)) as U.
+  destruct (del_keys d (k :: r) 0). exact U.
+Qed.
+Lemma keep_exists d args : ttl_keep d (snd (exec_exists d args)).
+Proof. unfold exec_exists. keep_auto. Qed.
+Lemma keep_keys d args : ttl_keep d (snd (exec_keys d args)).
+Proof. unfold exec_keys. keep_auto. Qed.
+Lemma keep_ttl d now args : ttl_keep d (snd (exec_ttl d now args)).
+Proof. unfold exec_ttl. keep_auto. Qed.
+Lemma keep_type d args : ttl_keep d (snd (exec_type d args)).
+Proof. unfold exec_type. keep_auto. Qed.
+Lemma keep_ping d args : ttl_keep d (snd (exec_ping d args)).
+Proof. unfold exec_ping. keep_auto. Qed.
+
+Lemma keep_llen d args : ttl_keep d (snd (exec_llen d args)).
+Proof. unfold exec_llen. keep_auto. Qed.
+Lemma keep_lindex d args : ttl_keep d (snd (exec_lindex d args)).
+Proof. unfold exec_lindex. keep_auto. Qed.
+Lemma keep_push l c d args : ttl_keep d (snd (push_cmd l c d args)).
+Proof. unfold push_cmd. cbv beta zeta. keep_auto. Qed.
+Lemma keep_pop l d args : ttl_keep d (snd (pop_cmd l d args)).
+Proof. unfold pop_cmd. cbv beta zeta. keep_auto. Qed.
+Lemma keep_lset d args : ttl_keep d (snd (exec_lset d args)).
+Proof. unfold exec_lset. keep_auto. Qed.
+Lemma keep_lrem d args : ttl_keep d (snd (exec_lrem d args)).
+Proof. unfold exec_lrem. keep_auto. Qed.
+Lemma keep_ltrim d args : ttl_keep d (snd (exec_ltrim d args)).
+Proof. unfold exec_ltrim. keep_auto. Qed.
+Lemma keep_lrange d args : ttl_keep d (snd (exec_lrange d args)).
+Proof. unfold exec_lrange. keep_auto. Qed.
+Lemma keep_lpos d args : ttl_keep d (snd (exec_lpos d args)).
+Proof. unfold exec_lpos. keep_auto. Qed.
+Lemma keep_exec_lmove d args : ttl_keep d (snd (exec_lmove d args)).
+Proof.
+  unfold exec_lmove. cbv beta zeta. repeat break_match; try keep_leaf;
+    cbn [snd]; apply keep_lmove; apply bytes_eqb_neq; assumption.
+Qed.
+
+Lemma get_list_found_get d k l : get_list d k = LFound l -> db_get d k <> None.
+Proof. unfold get_list. destruct (db_get d k); [discriminate|intros; discriminate]. Qed.
+
+Lemma keep_bpop_scan l d keys : forall d1, ttl_keep d d1 -> ttl_keep d (snd (bpop_scan l d1 keys)).
+Proof.
+  induction keys as [|k r IH]; intros d1 H; cbn; [exact H|].
+  destruct (get_list d1 k) eqn:G; try (apply IH; exact H); try exact H.
+  pose proof (get_list_found_get _ _ _ G) as NG.
+  repeat break_match; cbn [snd]; try (apply IH; exact H); apply keep_put_list_after; assumption.
+Qed.
+Lemma keep_bpop l d nowms args : db_wf d -> ttl_keep d (snd (exec_bpop l d nowms args)).
+Proof.
+  intros W. unfold exec_bpop. repeat break_match; try apply keep_refl.
+  apply keep_bpop_scan. apply keep_purge. exact W.
+Qed.
+
+(* the commands that may install, replace or remove a deadline *)
+Definition ttl_changers : list bytes :=
+  [B "set"; B "mset"; B "setex"; B "expire"; B "persist"; B "rename"].
+Definition changes_ttl (n : bytes) : bool := existsb (bytes_eqb n) ttl_changers.
+
+Definition family_keep (f : family) : Prop :=
+  forall d now nowms n args hint r d', db_wf d -> changes_ttl n = false ->
+    f d now nowms n args hint = Some (r, d') -> ttl_keep d d'.
+
+Lemma keep_strings : family_keep strings_dispatch.
+Proof.
+  intros d now nowms n args hint r d' W C. unfold strings_dispatch.
+  repeat match goal with
+  | |- context [if is n ?c then _ else _] =>
+    let E := fresh "E" in
+    destruct (is n c) eqn:E;
+    [ apply bytes_eqb_eq in E; subst n; try discriminate C | clear E ]
+  end; intros E; try discriminate; injection E as E;
+  apply (f_equal snd) in E; cbn [snd] in E; subst d';
+  first [ apply keep_get | apply keep_getrange | apply keep_setrange | apply keep_mget
+        | apply keep_setnx | apply keep_strlen | apply keep_incr | apply keep_decr | apply keep_incrby
+        | apply keep_decrby | apply keep_append | apply keep_exec_del | apply keep_exists
+        | apply keep_keys | apply keep_ttl | apply keep_type | apply keep_ping ].
+Qed.
+
+Lemma keep_lists : family_keep lists_dispatch.
+Proof.
+  intros d now nowms n args hint r d' W C. unfold lists_dispatch.
+  repeat match goal with
+  | |- context [if is n ?c then _ else _] => destruct (is n c)
+  end; intros E; try discriminate; injection E as E;
+  apply (f_equal snd) in E; cbn [snd] in E; subst d';
+  first [ apply keep_llen | apply keep_lindex | apply keep_lpos | apply keep_pop
+        | apply keep_push | apply keep_lset | apply keep_lrem | apply keep_ltrim
+        | apply keep_lrange | apply keep_exec_lmove | apply keep_bpop; exact W ].
+Qed.
+
+Lemma families_keep : Forall family_keep families.
+Proof.
+  unfold families. apply Forall_cons; [apply keep_strings|].
+  apply Forall_cons; [apply keep_lists|apply Forall_nil].
+Qed.
+
+Lemma keep_dispatch fs : Forall family_keep fs ->
+  forall d now nowms n args hint, db_wf d -> changes_ttl n = false ->
+    ttl_keep d (snd (dispatch fs d now nowms n args hint)).
+Proof.
+  induction 1 as [|f r Hf Hr IH]; intros d now nowms n args hint W C; cbn; [apply keep_refl|].
+  destruct (f d now nowms n args hint) as [[rep d']|] eqn:E; [|apply IH; assumption].
+  cbn [snd]. eapply Hf; eassumption.
+Qed.
+
+Theorem exec_cmd_keep d now nowms args hint : db_wf d -> changes_ttl (cmd_name args) = false ->
+  ttl_keep d (snd (exec_cmd d now nowms args hint)).
+Proof.
+  intros W C. unfold exec_cmd. destruct args as [|n r]; [apply keep_refl|].
+  apply keep_dispatch; [apply families_keep|exact W|exact C].
+Qed.
+
+Definition deadline_of (o : option (value * option Z)) : option Z :=
+  match o with Some (_, t) => t | None => None end.
+
+(* Unless the command is SET, MSET, SETEX, EXPIRE, PERSIST or RENAME: every key present after
+   the step has exactly the deadline it had in the view before it; a key the step created has
+   none. *)
+Theorem exec_keeps_deadlines d now nowms args hint k v' t' : db_wf d ->
+  changes_ttl (cmd_name args) = false ->
+  raw_view (snd (exec d now nowms args hint)) k = Some (v', t') ->
+  t' = deadline_of (view d now k).
+Proof.
+  intros W C R. unfold exec in R.
+  pose proof (exec_cmd_keep (purge d now) now nowms args hint (db_wf_purge d now W) C k) as [G|T];
+    unfold raw_view in R.
+  - rewrite G in R. discriminate.
+  - destruct (db_get (snd (exec_cmd (purge d now) now nowms args hint)) k); [|discriminate].
+    injection R as _ R. rewrite <- R, T, <- (raw_view_purge d now k W). unfold raw_view, deadline_of.
+    destruct (db_get (purge d now) k) eqn:G; [reflexivity|].
+    apply wf_ttl_none; [apply db_wf_purge; exact W|exact G].
 Qed.
